@@ -226,6 +226,8 @@ class World:
         ext["__contains__"] = self.contains
         ext["__eq__"] = self.equal
         ext["__bool__"] = self.truth
+        base_len = self.base.get("__len__")
+        ext["__len__"] = (lambda v, base_len=base_len: (base_len(v) if base_len is not None and not isinstance(v, Instance) else self.length(v)))
         ext["__module_env__"] = self.module_env
         ext["__class_state__"] = self.class_state
         ext["__world__"] = self
@@ -264,6 +266,15 @@ class World:
                 f = self.foreign_method(b, mname, _seen | {cls.name})
                 if f is not None:
                     return f
+        return None
+
+    def length(self, v):
+        """len(v) for an instance whose class defines __len__ (None: not this model's business)"""
+        if isinstance(v, Instance) and "__len__" in self.methods_of(v.cls):
+            n = to_poly(self.call_method(v, "__len__", [], {}))
+            if n.is_const() and n.const_value().denominator == 1:
+                return int(n.const_value())
+            raise Undecided("symbolic length")
         return None
 
     def get_property(self, v, attr):
@@ -425,6 +436,30 @@ class World:
         inst = Instance(cls)
         if "__init__" in self.methods_of(cls):
             self.call_method(inst, "__init__", args, kwargs)
+            return inst
+        # record-like classes whose constructor the language writes: @dataclass and typing.NamedTuple (used here for their NAMED
+        # fields, properties and methods; positional unpacking of such an instance is not modelled)
+        node = cls.node
+        is_dc = any(((A.dotted(d.func) if isinstance(d, ast.Call) else A.dotted(d)) or "").split(".")[-1] == "dataclass" for d in node.decorator_list)
+        is_nt = any((A.dotted(b) or "").split(".")[-1] == "NamedTuple" for b in node.bases)
+        if is_dc or is_nt:
+            fields = [(st.target.id, st.value) for st in node.body if isinstance(st, ast.AnnAssign) and isinstance(st.target, ast.Name)]
+            kwargs = dict(kwargs or {})
+            if len(args) > len(fields) or set(kwargs) - {n for n, _ in fields}:
+                raise Undecided(f"{cls.name}(...): arguments do not match its fields")
+            for i, (name, dflt) in enumerate(fields):
+                if i < len(args):
+                    inst.attrs[name] = args[i]
+                elif name in kwargs:
+                    inst.attrs[name] = kwargs[name]
+                elif dflt is not None:
+                    inst.attrs[name] = Interp(dict(self.module_env), {}, self.region, externals=self.externals()).eval(dflt)
+                else:
+                    raise Undecided(f"{cls.name}(...): field {name} not given")
+            if is_dc and "__post_init__" in self.methods_of(cls):
+                self.call_method(inst, "__post_init__", [], {})
+        elif args or kwargs:
+            raise Undecided(f"{cls.name}(...) takes arguments but the class defines no constructor the model knows")
         return inst
 
     def call_method(self, inst, mname, args, kwargs=None):
